@@ -36,6 +36,10 @@ class C12(core.Check):
             (True, 8, [("conn", 1), ("svc",), ("tick", 8), ("svc",)]),
             (False, 8, [("conn", 1), ("svc",), ("tick", 1), ("req", 1), ("svc",), ("svc",), ("tick", 8), ("svc",), ("tick", 80), ("svc",)]),
             (False, 0, [("conn", 1), ("svc",), ("tick", 100), ("svc",)]),
+            # the server's tymeout is changed after construction: later connections get the new one, earlier ones keep theirs
+            (False, 8, [("conn", 1), ("svc",), ("settmo", 2), ("conn", 2), ("svc",), ("tick", 2), ("svc",), ("tick", 6), ("svc",)]),
+            (True, 0, [("conn", 1), ("svc",), ("settmo", 3), ("conn", 2), ("svc",), ("tick", 3), ("svc",)]),
+            ("nd", 3, [("conn", 1), ("svc",), ("tick", 1), ("data", 1, 2), ("svc",), ("tick", 2), ("svc",), ("tick", 2), ("svc",)]),
             # send-side traffic: a response leaving in partial sends keeps a non-persistent connection alive
             (False, 8, [("conn", 1), ("svc",), ("cap", 1, 3), ("req10", 1), ("svc",)] + [("tick", 3), ("svc",)] * 8 + [("cap", 1, 1 << 30), ("svc",), ("svc",)]),
             # blocked sends are not traffic: queued output must not keep an idle connection open
@@ -54,6 +58,8 @@ class C12(core.Check):
             tls = rng.random() < 0.4
             if i < nreal:
                 tls = "real"
+            elif i % 9 == 0:
+                tls = "nd"
             tmo = rng.choice([0, 1, 2, 8, 8, 8, 40])
             ncon = rng.choice([1, 1, 2, 3])
             ops = []
@@ -89,6 +95,8 @@ class C12(core.Check):
                 elif r < 0.7:
                     ops.append(("wind", rng.choice([0, 0, rng.randrange(0, 60), 1000])))
                     since = 0
+                elif r < 0.72 and tls != "real":
+                    ops.append(("settmo", rng.choice([0, 1, 2, 8, 40])))
                 elif r < 0.74 and len(joined) < ncon:
                     ca = [c for c in range(1, ncon + 1) if c not in joined][0]
                     ops.append(("conn", ca))
@@ -116,14 +124,22 @@ class C12(core.Check):
 
     def request(self, case):
         tls, tmo, ops = case
+        if tls == "nd":
+            return ("noop",)
         return ("idle", tls is True, tmo, T.resp_len(), [tuple(o) for o in ops])
 
     def compare_view(self, case, obs):
+        if len(obs) == 2 and obs[0] == "EXC":
+            return "(escaped " + obs[1] + ")"
+        if case[0] == "nd":
+            return "noop"
         return sx.dumps(T.strip_idle(obs))
 
     def run_impl(self, case):
         if case[0] == "real":
             return T.run_real_idle(case)
+        if case[0] == "nd":    # tymes that are NOT exactly representable: unit 0.1 s, plain server, no model (float rounding)
+            return T.run_idle((False,) + tuple(case[1:]), UNIT=0.1)
         return T.run_idle(case)
 
     def oracle(self, case, obs):
@@ -133,11 +149,14 @@ class C12(core.Check):
         HTTP layer is done with a non-persistent exchange (response completely accepted by the socket);
         persistent / tymeout 0 => never closed"""
         tls, tmo, ops = case
+        if len(obs) == 2 and obs[0] == "EXC":
+            return ["escaped:" + obs[1]]
         L = T.resp_len()
         bad = []
         now = 0
         order = []
         state = {}
+        cur_tmo = tmo
         for op, (st, snap) in zip(ops, obs):
             if st != "ok":
                 bad.append("service-raised")
@@ -145,7 +164,9 @@ class C12(core.Check):
             if k == "conn":
                 order.append(op[1])
                 state[op[1]] = dict(acc=False, seen=None, und=0, undreq=False, und10=False, pers=False, open=True, inhead=False,
-                                    nonpers=False, kacc=0, kacc_at_req=None)
+                                    nonpers=False, kacc=0, kacc_at_req=None, tmo=None)
+            elif k == "settmo":
+                cur_tmo = op[1]
             elif k == "tick":
                 now += op[1]
             elif k == "wind":
@@ -174,6 +195,7 @@ class C12(core.Check):
                         got = "closed"
                     if not s_["acc"]:
                         s_["acc"] = True
+                        s_["tmo"] = cur_tmo     # a connection keeps the tymeout the server had when it was accepted
                         s_["seen"] = now
                         if got != "open":
                             bad.append("closed-at-accept")
@@ -186,12 +208,20 @@ class C12(core.Check):
                     idle = now - s_["seen"]
                     sent_now = kacc > s_["kacc"]
                     done10 = s_["nonpers"] and s_["kacc"] - s_["kacc_at_req"] >= L   # the whole response had left before this pass
-                    if s_["pers"] or tmo == 0:
+                    tmo_c = s_["tmo"]
+                    if tls == "nd" and not s_["pers"] and tmo_c and idle == tmo_c:
+                        # exactly at the deadline in inexact float tyme: either outcome is in tolerance
+                        s_["open"] = got == "open"
+                        s_["kacc"] = kacc
+                        if s_["open"] and (s_["und"] or sent_now):
+                            s_["seen"] = now
+                        continue
+                    if s_["pers"] or tmo_c == 0:
                         if got != "open":
                             if not done10:
                                 bad.append("persistent-or-untimed-closed")
                             s_["open"] = False
-                    elif idle >= tmo:
+                    elif idle >= tmo_c:
                         if got != "closed":
                             bad.append("idle-not-closed")
                         s_["open"] = got != "closed"
@@ -214,6 +244,8 @@ class C12(core.Check):
 
     def nontrivial(self, case, obs):
         tls, tmo, ops = case
+        if len(obs) == 2 and obs[0] == "EXC":
+            return True
         closed = any(e[0] == "closed" for st, snap in obs for e in snap)
         total = sum(o[1] for o in ops if o[0] == "tick")
         survived = tmo > 0 and total >= tmo and obs and any(e[0] == "open" for e in obs[-1][1]) and any(o[0] in ("data", "req", "req10") for o in ops)
@@ -221,7 +253,9 @@ class C12(core.Check):
 
     def features(self, case, obs):
         tls, tmo, ops = case
-        f = ["real-loopback" if tls == "real" else "tls" if tls else "plain", "tymeout:%d" % tmo, "conns:%d" % sum(1 for o in ops if o[0] == "conn")]
+        if len(obs) == 2 and obs[0] == "EXC":
+            return ["escaped"]
+        f = ["real-loopback" if tls == "real" else "non-dyadic-tyme" if tls == "nd" else "tls" if tls else "plain", "tymeout:%d" % tmo, "conns:%d" % sum(1 for o in ops if o[0] == "conn")]
         if obs:
             for x in obs[-1][1]:
                 f.append("end:" + x[0])
